@@ -19,12 +19,50 @@ package verifspec
 //@   param format
 //@   ensures result != nil
 
+// ---- specification vocabulary for hint streams ------------------------------------------------
+// firstHint(b): index of the first 0x08 in b, or -1 (definition by its characteristic property).
+//@ pure firstHint(b []byte) int
+//@ axiom firstHintDef(b []byte): (firstHint(b) == -1 && forall(k, 0, len(b), b[k] != 8)) || (0 <= firstHint(b) && firstHint(b) < len(b) && b[firstHint(b)] == 8 && forall(k, 0, firstHint(b), b[k] != 8))
+//@ pure hlen(b []byte, i int) int = b[i+1]*256 + b[i+2]
+//@ pure hintEnd(p []byte) int = firstHint(p) + 3 + hlen(p, firstHint(p))
+// wf(p): every 0x08 at a hint position begins a complete hint (a stream is only ever parsed from a hint boundary).
+//@ pure wf(p []byte) bool = firstHint(p) == -1 || (firstHint(p) + 3 <= len(p) && hintEnd(p) <= len(p) && wf(p[hintEnd(p):]))
+// strip(p): p with every hint removed.
+//@ pure strip(p []byte) seq = firstHint(p) == -1 ? seq(p) : cat(seq(p[:firstHint(p)]), strip(p[hintEnd(p):]))
+// nl(s): number of newlines in s.  col(s, c): column after writing s starting in column c.  Defined by structural
+// recursion over empty / one byte / concatenation.
+//@ pure nl(s seq) int
+//@ pure col(s seq, c int) int
+//@ axiom nlcat: all(seqv(x), seqv(y), nl(cat(x, y)) == nl(x) + nl(y))
+//@ axiom nlempty: nl(empty()) == 0
+//@ axiom nlbyte: all(c, nl(byteseq(c)) == (c == 10 ? 1 : 0))
+//@ axiom colcat: all(seqv(x), seqv(y), c, col(cat(x, y), c) == col(y, col(x, c)))
+//@ axiom colempty: all(c, col(empty(), c) == c)
+//@ axiom colbyte: all(k, c, col(byteseq(k), c) == (k == 10 ? 0 : c + 1))
+
+//@ lemma noNL(b []byte)
+//@   requires forall(k, 0, len(b), b[k] != 10)
+//@   ensures nl(seq(b)) == 0
+//@   ensures all(c, col(seq(b), c) == c + len(b))
+//@   induct b
+
+//@ lemma nlAt(b []byte, r int)
+//@   requires 0 <= r && r < len(b) && b[r] == 10 && forall(k, 0, r, b[k] != 10)
+//@   ensures nl(seq(b[:r+1])) == 1
+//@   ensures all(c, col(seq(b[:r+1]), c) == 0)
+//@   hint use noNL(b[:r])
+//@   hint split(b, 0, r, r+1)
+
 //@ func internal/sourcemapx.FindHint
 //@ property C19
 //@   ensures result == -1 ==> forall(k, 0, len(b), b[k] != 8)
 //@   ensures result != -1 ==> 0 <= result && result < len(b) && b[result] == 8 && forall(k, 0, result, b[k] != 8)
-
-//@ pure hlen(b []byte, i int) int = b[i+1]*256 + b[i+2]
+//@   hint return: use firstHintDef(b)
+//@   hint return: assert result >= 0 ==> firstHint(b) != -1
+//@   hint return: assert result >= 0 ==> firstHint(b) <= result
+//@   hint return: assert firstHint(b) >= 0 ==> result != -1
+//@   hint return: assert firstHint(b) >= 0 ==> result <= firstHint(b)
+//@   ensures result == firstHint(b)
 
 //@ func internal/sourcemapx.ReadHint
 //@ property C19
@@ -32,3 +70,73 @@ package verifspec
 //@   ensures length == hlen(b, 0) + 3
 //@   ensures len(h.Payload) == hlen(b, 0) && forall(k, 0, hlen(b, 0), h.Payload[k] == b[3+k])
 //@   ensures fresharr(h.Payload)
+
+// ---- ghost state of an io.Writer: the bytes it has accepted so far.
+//@ ghostfn out seq
+
+//@ extern io.Writer.Write
+//@   param w p
+//@   results n err
+//@   assigns out(w)
+//@   ensures 0 <= n && n <= len(p)
+//@   ensures err == nil ==> n == len(p)
+//@   ensures out(w) == cat(old(out(w)), seq(p[:n]))
+
+//@ extern encoding/binary.bigEndian.AppendUint16
+//@   param recv b v
+//@   ensures len(result) == len(b) + 2 && result[len(b)] == v / 256 && result[len(b)+1] == v % 256
+//@   ensures forall(k, 0, len(b), result[k] == b[k])
+
+//@ func internal/sourcemapx.Hint.WriteTo
+//@ property C19
+//@   results n err
+//@   panics_if len(h.Payload) > 65535
+//@   ensures err == nil ==> n == 3 + len(h.Payload)
+//@   hint return: split(encoded, 0, 1, len(encoded))
+//@   hint return: split(encoded, 1, 2, len(encoded))
+//@   hint return: split(encoded, 2, 3, len(encoded))
+//@   hint return: ext(encoded[3:], h.Payload)
+//@   ensures err == nil ==> out(w) == cat(old(out(w)), cat(byteseq(8), byteseq(len(h.Payload) / 256), byteseq(len(h.Payload) % 256), seq(h.Payload)))
+
+//@ extern internal/sourcemapx.Hint.Unpack
+//@   param h
+//@   results value err
+//@   assigns nothing
+
+//@ extern go/token.FileSet.Position
+//@   param s p
+//@   assigns nothing
+
+// Filter.Write: for every well-formed hint stream p and every behaviour of the underlying writer, the bytes handed on are
+// strip(p) in order, n == len(p) on success, line/column follow the *output*, and every mapping callback receives the
+// output position at which the byte following the hint will be written.
+//@ func internal/sourcemapx.Filter.Write
+//@ property C19
+//@   requires wf(p)
+//@   requires 0 <= f.line && f.line <= 1000000000000000 && 0 <= f.column && f.column <= 1000000000000000
+//@   ghost D = empty()
+//@   panics_only_if f.goMappingCallback != nil
+//@   ensures err == nil ==> n == len(old(p))
+//@   ensures err == nil ==> out(f.Writer) == cat(old(out(f.Writer)), strip(old(p)))
+//@   ensures err == nil ==> f.line == old(f.line) + nl(strip(old(p))) && f.column == col(strip(old(p)), old(f.column))
+//@   after FindHint: unfold strip(b)
+//@   after FindHint: unfold wf(b)
+//@   after io.Writer.Write: ghost D = cat(D, seq(p[:n]))
+//@   after bytes.IndexByte: use noNL(b) if result == -1
+//@   after bytes.IndexByte: use nlAt(b, result) if result >= 0
+//@   after bytes.IndexByte: split(seg, 0, len(seg) - len(b), len(seg) - len(b) + result + 1) if result >= 0
+//@   oncall goMappingCallback: assert a0 == old(f.line) + nl(D) + 1 && a1 == col(D, old(f.column))
+//@   loop 1 assigns D, out(f.Writer)
+//@   loop 1 invariant suffixof(p, old(p)) && wf(p) && err == nil && n == len(old(p)) - len(p)
+//@   loop 1 invariant out(f.Writer) == cat(old(out(f.Writer)), D)
+//@   loop 1 invariant cat(D, strip(p)) == strip(old(p))
+//@   loop 1 invariant f.line == old(f.line) + nl(D) && f.column == col(D, old(f.column))
+//@   loop 1 invariant 0 <= f.line && f.line <= old(f.line) + n && 0 <= f.column && f.column <= old(f.column) + n
+//@   loop 1 decreases len(p)
+//@   loop 2 hint init: ghost seg = w
+//@   loop 2 hint init: ghost l2 = f.line
+//@   loop 2 hint init: ghost c2 = f.column
+//@   loop 2 invariant suffixof(w, seg) && f.line == l2 + nl(seq(seg[:len(seg)-len(w)])) && f.column == col(seq(seg[:len(seg)-len(w)]), c2)
+//@   loop 2 invariant 0 <= f.line && f.line <= l2 + len(seg) - len(w) && 0 <= f.column && f.column <= c2 + len(seg) - len(w)
+//@   loop 2 decreases len(w)
+//@   loop 2 hint exit: split(seg, 0, len(seg) - len(w), len(seg))
